@@ -221,11 +221,14 @@ func (n *node[K, V]) collect(t *Trie[K, V], prefix K) (Queuer[K], error) {
 		return t.q, ErrorNotFound
 	}
 
+	// The node holds one byte of the key, not a rune.
+	key := prefix + K([]byte{n.c})
+
 	n.left.collect(t, prefix)
 	if n.isValid {
-		t.q.Enqueue(prefix + K(n.c))
+		t.q.Enqueue(key)
 	}
-	n.mid.collect(t, prefix+K(n.c))
+	n.mid.collect(t, key)
 
 	return n.right.collect(t, prefix)
 }
